@@ -31,6 +31,25 @@ type c16Attempt struct {
 	task            *rt.Task
 }
 
+// expiredOutsider is a copy of the outsider key (key 3, never a signer of
+// anything in this check) whose self signatures say the key expired long ago.
+func expiredOutsider() *openpgp.Entity {
+	src := pgpKeys[3]
+	e := *src
+	e.Identities = map[string]*openpgp.Identity{}
+	one := uint32(1)
+	for k, id := range src.Identities {
+		idc := *id
+		if id.SelfSignature != nil {
+			sig := *id.SelfSignature
+			sig.KeyLifetimeSecs = &one
+			idc.SelfSignature = &sig
+		}
+		e.Identities[k] = &idc
+	}
+	return &e
+}
+
 func runC16(r *rt.Run, tier string) {
 	t := r.T
 	loadKeys()
@@ -277,6 +296,12 @@ func runC16(r *rt.Run, tier string) {
 	case 3:
 		keyring = openpgp.EntityList{}
 	}
+	if t.Bool(1, 4, "c16.expired-key-first") {
+		// a key past its expiry date (never the signer) at the head of the keyring
+		keyring = append(openpgp.EntityList{expiredOutsider()}, keyring...)
+		r.Probe("keyring-starts-with-an-expired-key")
+	}
+	keyringSnap := append(openpgp.EntityList{}, keyring...)
 	inKeyring := false
 	for _, e := range keyring {
 		if sameEntity(e, signer) {
@@ -309,6 +334,12 @@ func runC16(r *rt.Run, tier string) {
 				list()
 			}
 			a.signer, a.verErr = d.CheckDebsig(keyring, askRole)
+			for i := range keyringSnap {
+				if i >= len(keyring) || keyring[i] != keyringSnap[i] {
+					a.seq = append(a.seq, fmt.Sprintf("CheckDebsig rewrote the caller's keyring: entry %d of %d is another key afterwards", i, len(keyringSnap)))
+					break
+				}
+			}
 			if verifyFirst {
 				list()
 				r.Probe("payload-read-after-verification")
@@ -554,5 +585,5 @@ func init() {
 		},
 		Assumptions: []string{"x/crypto/openpgp both makes and verifies the signatures: a bug common to both directions is invisible", "test keys are committed fixtures (key generation is not reproducible in Go); signing with a fixed signature time is byte-deterministic"},
 	})
-	propProbes["C16"] = []string{"one-package-checked-by-concurrent-callers", "decoy-whose-header-read-fails", "tampered-twin-verified-concurrently", "debian-binary-with-further-lines", "loads-interleaved", "repeated-checks-on-one-package", "verification-succeeded", "payload-read-after-verification", "decoy-with-identical-name"}
+	propProbes["C16"] = []string{"keyring-starts-with-an-expired-key", "one-package-checked-by-concurrent-callers", "decoy-whose-header-read-fails", "tampered-twin-verified-concurrently", "debian-binary-with-further-lines", "loads-interleaved", "repeated-checks-on-one-package", "verification-succeeded", "payload-read-after-verification", "decoy-with-identical-name"}
 }
